@@ -209,6 +209,6 @@ def run_shard(spec, col: Collector):
 
 def plan(tier, seed, scale=1.0):
     q = tier == "quick"
-    n, copies, mx = (600, 8, 25) if q else (15000, 16, 40)
+    n, copies, mx = (600, 8, 25) if q else (90000, 16, 40)
     return [dict(shard=f"s{c}", n=int(n * scale), max_nodes=mx, budget_s=50 if q else 800, timeout_s=150 if q else 1300,
                  hash_seed=(seed * 19 + c) % 4294967295) for c in range(copies)]
